@@ -4,7 +4,7 @@ import ast
 
 from ..program import AnalysisError, walk_local, dotted
 from ..analysis import Spec, src, const_value
-from ..rules import (GWF, EXC, mpt, need_func, stores_to, is_const, kw,
+from ..rules import (before, order_of, canon, cond_equiv, substitute_locals, string_template, GWF, EXC, mpt, need_func, stores_to, is_const, kw,
                      parent_map, raise_class, explicit_exits)
 from . import common, gitcmds
 from .c02 import _site_publishes
@@ -134,10 +134,11 @@ def refusal_before_effect(prog, an, rep):
 
 def _guard_ifs(an, f, upto):
     """If statements (not in except blocks) whose body starts by raising a
-    refusal, located before line `upto`."""
+    refusal, located before the statement `upto` in source order (None: all
+    of them)."""
     out = []
     for n in walk_local(f.node, include_root=False):
-        if isinstance(n, ast.If) and n.lineno < upto:
+        if isinstance(n, ast.If) and (upto is None or before(f, n, upto)):
             for s in n.body:
                 if isinstance(s, ast.Raise):
                     k = (raise_class(an, f, s) or '').rpartition('.')[2]
@@ -186,8 +187,7 @@ def _enclosing_skips(an, f, c, ifnode):
         p_ = pm[n]
         if isinstance(p_, ast.If) and n is not p_.test:
             in_body = any(n is s or _contains(s, n) for s in p_.body)
-            texts.append(('' if in_body else 'else: ') +
-                         ' '.join(src(p_.test).split()))
+            texts.append(('' if in_body else 'else: ', p_.test))
             atoms = [t for t in c.nodes.values() if t.kind == 'test' and
                      any(t.ast is x for x in ast.walk(p_.test))]
             first = _first_node(c, ifnode)
@@ -216,7 +216,9 @@ def _first_node(c, ifnode):
 def _check_guards(prog, an, rep, f, target_nodes, table, what):
     R = 'C20.MPT.preconditions'
     c = an.cfg(f)
-    upto = min(c.nodes[t].lineno for t in target_nodes)
+    order = order_of(f)
+    upto = min((c.nodes[t].ast for t in target_nodes),
+               key=lambda a_: order.get(id(a_), 10 ** 9))
     guards = _guard_ifs(an, f, upto)
     seen = {}
     for ifn, rs, kind in guards:
@@ -240,10 +242,16 @@ def _check_guards(prog, an, rep, f, target_nodes, table, what):
         texts, skips = _enclosing_skips(an, f, c, ifn)
         allowed = table[key]
         rep.evaluated()
-        rep.check(texts == allowed, R, '%s: guard "%s" applies under %s' % (
+        same = len(texts) == len(allowed)
+        for (pre, test), want in zip(texts, allowed):
+            wpre = 'else: ' if want.startswith('else: ') else ''
+            same = same and pre == wpre and \
+                cond_equiv(f, test, want[len(wpre):])
+        shown = [pre + canon(f, t) for pre, t in texts]
+        rep.check(same, R, '%s: guard "%s" applies under %s' % (
             f.qname, key, allowed or 'no condition'), f.where(ifn),
             'guard "%s" is now nested under %s (expected %s): it no longer '
-            'applies to every request it should' % (key, texts, allowed))
+            'applies to every request it should' % (key, shown, allowed))
         for t in target_nodes:
             rep.evaluated()
             ok, path = c.must_pass(passing + skips, t)
@@ -261,30 +269,35 @@ def _check_guards(prog, an, rep, f, target_nodes, table, what):
     return seen
 
 
+# Conditions are written without locals (the checker replaces every
+# single-binding local by what it stands for before comparing), and are
+# compared as boolean functions, not as text.
+REPO = 'clone_git_repo(job)'
+B = 'branch_factory(%s, job.settings.branch)' % REPO
+DEVS = 'BranchCascade().get_development_branches()'
+FROM = "'branch_from' in job.settings and job.settings['branch_from']"
 CREATE_TABLE = {
     'NothingToDo': [],
     'is not a GWF destination branch': [],
     'already an archive tag': [],
-    'is not included in latest development branch':
-        ["'branch_from' in job.settings and job.settings['branch_from']"],
+    'is not included in latest development branch': [FROM],
     'without a supporting development branch':
-        ['isinstance(new_branch, StabilizationBranch)',
-         "else: 'branch_from' in job.settings and "
-         "job.settings['branch_from']"],
+        ['isinstance(%s, StabilizationBranch)' % B, 'else: ' + FROM],
     'due to queued data':
-        ['job.settings.use_queue and (not isinstance(new_branch, '
-         'StabilizationBranch)) and (not isinstance(new_branch, '
-         'HotfixBranch)) and (new_branch < dev_branches[-1])'],
+        ['job.settings.use_queue and not isinstance(%s, '
+         '(StabilizationBranch, HotfixBranch)) and %s < %s[-1]' % (B, B,
+                                                                   DEVS)],
 }
 DELETE_TABLE = {
     'is not a GWF destination branch': [],
     'NothingToDo': [],
     'already an archive tag': [],
     'active stabilization branch':
-        ['not isinstance(del_branch, StabilizationBranch) and (not '
-         'isinstance(del_branch, HotfixBranch))'],
+        ['not isinstance(%s, (StabilizationBranch, HotfixBranch))' % B],
     'due to queued data': ['job.settings.use_queue'],
 }
+KINDS = 'not isinstance(%s, (DevelopmentBranch, StabilizationBranch, ' \
+    'HotfixBranch))' % B
 
 
 def create_preconditions(prog, an, rep):
@@ -298,34 +311,23 @@ def create_preconditions(prog, an, rep):
     R = 'C20.ARG.preconditions'
     # what each guard tests
     expect = {
-        'NothingToDo': 'job.settings.branch in repo.remote_branches',
+        'NothingToDo': 'job.settings.branch in %s.remote_branches' % REPO,
         'already an archive tag':
-            "new_branch.version in repo.cmd('git tag').split('\\n')[:-1]",
+            "%s.version in %s.cmd('git tag').split('\\n')[:-1]" % (B, REPO),
         'is not included in latest development branch':
-            'not dev_branches[-1].includes_commit(job.settings.branch_from)',
+            'not %s[-1].includes_commit(job.settings.branch_from)' % DEVS,
         'without a supporting development branch':
-            'job.settings.branch_from not in dev_branches',
-        'due to queued data': 'queue_collection.queued_prs',
+            'job.settings.branch_from not in %s' % DEVS,
+        'due to queued data': 'build_queue_collection(job).queued_prs',
+        'is not a GWF destination branch': KINDS,
     }
     for k, text in expect.items():
         if k in seen:
-            got = ' '.join(src(seen[k][0].test).split())
             rep.evaluated()
-            rep.check(got == text, R, '%s: "%s" tests %s' % (f.qname, k,
-                                                             text),
-                      f.where(seen[k][0]), 'guard "%s" now tests %s' % (k,
-                                                                        got))
-    if 'is not a GWF destination branch' in seen:
-        t = src(seen['is not a GWF destination branch'][0].test)
-        rep.check(all(x in t for x in ('DevelopmentBranch',
-                                       'StabilizationBranch',
-                                       'HotfixBranch')) and
-                  t.startswith('not '), R, f.qname + ': destination kinds',
-                  f.where(), 'destination test is %s' % t)
-    qc = [v for _, v in stores_to(f, 'queue_collection') if v is not None]
-    rep.check(len(qc) == 1 and src(qc[0]) == 'build_queue_collection(job)',
-              R, f.qname + ': queued PRs come from the queue collection',
-              f.where(), 'queue_collection = %s' % [src(v) for v in qc])
+            rep.check(cond_equiv(f, seen[k][0].test, text), R,
+                      '%s: "%s" tests %s' % (f.qname, k, text),
+                      f.where(seen[k][0]), 'guard "%s" now tests %s' % (
+                          k, canon(f, seen[k][0].test)))
     # unrecognised names are refused
     hs = [n for n in c.nodes.values() if n.kind == 'handler' and
           n.ast.type is not None and
@@ -379,33 +381,45 @@ def delete_preconditions(prog, an, rep):
                          DELETE_TABLE, 'the branch is deleted')
     R = 'C20.ARG.preconditions'
     expect = {
-        'NothingToDo': 'job.settings.branch not in repo.remote_branches',
+        'NothingToDo': 'job.settings.branch not in %s.remote_branches' % REPO,
         'due to queued data':
-            'queue_collection.has_version_queued_prs(del_branch.version_t)',
+            'build_queue_collection(job).has_version_queued_prs('
+            '%s.version_t)' % B,
+        'already an archive tag':
+            "not isinstance(%s, HotfixBranch) and %s.version in "
+            "%s.cmd('git tag').split('\\n')[:-1]" % (B, B, REPO),
+        'is not a GWF destination branch': KINDS,
     }
     for k, text in expect.items():
         if k in seen:
-            got = ' '.join(src(seen[k][0].test).split())
             rep.evaluated()
-            rep.check(got == text, R, '%s: "%s" tests %s' % (f.qname, k,
-                                                             text),
-                      f.where(seen[k][0]), 'guard "%s" now tests %s' % (k,
-                                                                        got))
+            rep.check(cond_equiv(f, seen[k][0].test, text), R,
+                      '%s: "%s" tests %s' % (f.qname, k, text),
+                      f.where(seen[k][0]), 'guard "%s" now tests %s' % (
+                          k, canon(f, seen[k][0].test)))
     if 'active stabilization branch' in seen:
-        t = ' '.join(src(seen['active stabilization branch'][0].test).split())
-        sp = [src(v) for _, v in stores_to(f, 'stab_prefix')
-              if v is not None]
-        rep.check('b.startswith(stab_prefix)' in t and
-                  'repo.remote_branches' in t and
-                  sp == ["'stabilization/%s' % del_branch.version"], R,
-                  f.qname + ': live stabilization branches of that version '
-                  'block the deletion', f.where(), 'stabilization test is '
-                  '%s with prefix %s' % (t, sp))
-    if 'already an archive tag' in seen:
-        t = ' '.join(src(seen['already an archive tag'][0].test).split())
-        rep.check("del_branch.version in repo.cmd('git tag')" in t, R,
-                  f.qname + ': an existing archive tag blocks the deletion',
-                  f.where(), 'archive tag test is %s' % t)
+        test = substitute_locals(f, seen['active stabilization branch'][0]
+                                 .test)
+        while isinstance(test, ast.Call) and src(test.func) in (
+                'any', 'list') and len(test.args) == 1:
+            test = test.args[0]
+        ok = False
+        if isinstance(test, (ast.ListComp, ast.GeneratorExp)) and \
+                len(test.generators) == 1:
+            g = test.generators[0]
+            e = test.elt
+            if isinstance(e, ast.Call) and \
+                    isinstance(e.func, ast.Attribute) and \
+                    e.func.attr == 'startswith' and len(e.args) == 1 and \
+                    src(e.func.value) == src(g.target) and not g.ifs:
+                t = string_template(e.args[0])
+                ok = t is not None and t[0] == 'stabilization/{}' and \
+                    canon(f, t[1][0]) == B + '.version' and \
+                    canon(f, g.iter) == REPO + '.remote_branches'
+        rep.check(ok, R, f.qname + ': live stabilization branches of that '
+                  'version block the deletion', f.where(),
+                  'stabilization test is %s' % canon(
+                      f, seen['active stabilization branch'][0].test))
     # archive tag for hotfix branches has its own suffix
     at = [src(v) for _, v in stores_to(f, 'archive_tag') if v is not None]
     rep.check("del_branch.version" in at and any(
@@ -456,12 +470,27 @@ def queue_jobs(prog, an, rep):
             rep.check(ok, R, f.qname + ': effects only with queues enabled',
                       f.where(c.nodes[e]), 'a remote effect without the '
                       'use_queue check', path=c.describe_path(path))
-        qb = [v for _, v in stores_to(f, 'queue_branches') if v is not None]
-        ok = len(qb) == 1 and isinstance(qb[0], ast.ListComp) and \
-            src(qb[0].generators[0].iter) == 'repo.remote_branches' and \
-            [src(i) for i in qb[0].generators[0].ifs] == [
-                "b.startswith('q/')"] and \
-            src(qb[0].elt) == 'branch_factory(repo, b)'
+        # the list that is removed: [branch_factory(repo, n) for n in
+        # <repo>.remote_branches if n.startswith('q/')] -- found from the
+        # removal loop, whatever the list and its variables are called
+        rm_loops = [lp for lp in walk_local(f.node, include_root=False)
+                    if isinstance(lp, ast.For) and any(
+                        isinstance(x, ast.Call) and
+                        isinstance(x.func, ast.Attribute) and
+                        x.func.attr == 'remove' for x in ast.walk(lp))]
+        qvar = src(rm_loops[0].iter) if rm_loops else None
+        qb = [v for _, v in stores_to(f, qvar) if v is not None] \
+            if qvar else []
+        ok = False
+        if len(qb) == 1 and isinstance(qb[0], ast.ListComp) and \
+                len(qb[0].generators) == 1:
+            g = qb[0].generators[0]
+            v = src(g.target)
+            ok = canon(f, g.iter).endswith('.remote_branches') and \
+                [src(i) for i in g.ifs] == ["%s.startswith('q/')" % v] and \
+                isinstance(qb[0].elt, ast.Call) and \
+                src(qb[0].elt.func) == 'branch_factory' and \
+                len(qb[0].elt.args) == 2 and src(qb[0].elt.args[1]) == v
         rep.evaluated()
         rep.check(ok, R, f.qname + ': removes exactly the remote q/ '
                   'branches', f.where(), 'queue_branches = %s' %
@@ -476,7 +505,7 @@ def queue_jobs(prog, an, rep):
             while loop in pm and not isinstance(loop, ast.For):
                 loop = pm[loop]
             ok = isinstance(loop, ast.For) and \
-                src(loop.iter) == 'queue_branches' and \
+                src(loop.iter) == qvar and \
                 src(x.func.value) == loop.target.id and \
                 common.do_push_at(x, 'remove') is False and \
                 kw(x, 'force') is None
